@@ -634,10 +634,92 @@ pub fn run(tier: Tier, seed: u64) -> EnumOut {
 			"probe_events": n_events, "probe_paths": PATHS.len(),
 		}),
 	);
+	whitelist_leg(tier, &mut res);
 	res.rule = out.rule;
 	res.assumptions = out.assumptions;
 	let _ = WL;
 	res
+}
+
+// ---------------------------------------------------------------------------------------
+// whitelist-lookup leg: several explicitly watched files at once
+
+/// Names whose byte order and path-component order disagree ('-', '.', ' ' sort before '/'),
+/// plus ordinary ones: any data structure used to look a whitelisted file up must find
+/// every entry, in whatever order the entries were given.
+const WL_POOL: &[&str] = &["src/main.rs", "src-gen/out.rs", "src.d/x.rs", "src", "conf/app.toml", "conf.d/l.toml", "a b/x", "a/b"];
+
+fn wl_case(rt: &tokio::runtime::Runtime, origin: &std::path::Path, order: &[usize], evals: &mut u64) -> Result<Vec<(String, String)>, String> {
+	let abs: Vec<PathBuf> = order.iter().map(|i| origin.join(WL_POOL[*i])).collect();
+	// everything is ignored by pattern: only the whitelist lets a file through
+	let f = rt
+		.block_on(GlobsetFilterer::new(origin, vec![], vec![("*".to_string(), None)], abs.clone(), vec![], vec![]))
+		.map_err(|e| format!("GlobsetFilterer::new failed for whitelist {abs:?}: {e}"))?;
+	let mut v = vec![];
+	for (i, rel) in WL_POOL.iter().enumerate() {
+		let p = origin.join(rel);
+		let ev = Event { tags: vec![Tag::Path { path: p, file_type: Some(FileType::File) }], metadata: Default::default() };
+		*evals += 1;
+		let pass = f.check_event(&ev, Priority::Normal).map_err(|e| e.to_string())?;
+		let listed = order.contains(&i);
+		if listed && !pass {
+			v.push((
+				"C11/whitelisted-file-rejected/several-whitelisted-files".to_string(),
+				format!("whitelist {:?} (in this order), ignore pattern \"*\": the event naming the explicitly watched file {rel:?} is rejected", order.iter().map(|i| WL_POOL[*i]).collect::<Vec<_>>()),
+			));
+		} else if !listed && pass {
+			v.push((
+				"C11/ignored-file-passes/several-whitelisted-files".to_string(),
+				format!("whitelist {:?}, ignore pattern \"*\": {rel:?} is not whitelisted but passes", order.iter().map(|i| WL_POOL[*i]).collect::<Vec<_>>()),
+			));
+		}
+	}
+	Ok(v)
+}
+
+fn wl_orders(max: usize) -> Vec<Vec<usize>> {
+	let mut out: Vec<Vec<usize>> = vec![];
+	let mut frontier: Vec<Vec<usize>> = vec![vec![]];
+	for _ in 0..max {
+		let mut next = vec![];
+		for o in &frontier {
+			for i in 0..WL_POOL.len() {
+				if !o.contains(&i) {
+					let mut n = o.clone();
+					n.push(i);
+					next.push(n);
+				}
+			}
+		}
+		out.extend(next.iter().cloned());
+		frontier = next;
+	}
+	out
+}
+
+fn whitelist_leg(tier: Tier, res: &mut EnumOut) {
+	let rt = runtime();
+	let fx = Fixture::new("c11-wl");
+	let origin = fx.origin.clone();
+	let orders = wl_orders(if tier == Tier::Thorough { 5 } else { 4 });
+	let mut evals = 0u64;
+	let mut n = 0u64;
+	for o in &orders {
+		n += 1;
+		match wl_case(&rt, &origin, o, &mut evals) {
+			Ok(v) => {
+				for (k, d) in v {
+					res.violate(k, d, json!({"law": "whitelist-lookup", "whitelist": o.iter().map(|i| WL_POOL[*i]).collect::<Vec<_>>()}));
+				}
+			}
+			Err(e) => {
+				res.violate("C11/whitelist-leg/construction-error", e, json!({"law": "whitelist-lookup", "whitelist": o.iter().map(|i| WL_POOL[*i]).collect::<Vec<_>>()}));
+			}
+		}
+	}
+	res.states += n;
+	res.evaluations += evals;
+	res.extra.insert("whitelist_lookup_leg".into(), json!({"pool": WL_POOL, "ordered_whitelists": n, "evaluations": evals}));
 }
 
 // ---------------------------------------------------------------------------------------
@@ -660,6 +742,15 @@ fn strings(v: &Value) -> Vec<String> {
 
 pub fn replay(input: &Value) -> Vec<(String, String)> {
 	let go = || -> Result<Vec<(String, String)>, String> {
+		if input["law"].as_str() == Some("whitelist-lookup") {
+			let order = strings(&input["whitelist"])
+				.iter()
+				.map(|w| WL_POOL.iter().position(|p| p == w).ok_or_else(|| format!("unknown whitelist pool entry {w}")))
+				.collect::<Result<Vec<_>, _>>()?;
+			let mut n = 0;
+			let fx = Fixture::new("c11-wl-replay");
+			return wl_case(&runtime(), &fx.origin, &order, &mut n);
+		}
 		let c = &input["config"];
 		let filters = strings(&c["filters"]);
 		let ignores = strings(&c["ignores"]);
